@@ -5,6 +5,7 @@ import (
 	"hash/fnv"
 	"os"
 	"runtime/debug"
+	"sort"
 	"strings"
 
 	"github.com/smarthome-go/homescript/v3/homescript/analyzer/ast"
@@ -254,6 +255,42 @@ fn main() {
     println(acc);
 }
 `},
+		{"small:impl-block-methods", `import templ FooFeature from templates;
+$Lamp = {
+    level: int,
+    name: str,
+};
+impl FooFeature with { light } for $Lamp {
+    fn dim(self: $Lamp, percent: int) -> bool {
+        if self.level == percent {
+            return false;
+        }
+        self.level = percent + 0;
+        true
+    }
+}
+fn level(l: $Lamp) -> int { l.level * 1 }
+fn main() {
+    println(dim(40), dim(40), level());
+    for i in 0..3 {
+        dim(i + 1);
+    }
+    println(level(), $Lamp.level);
+}
+`},
+		{"small:annotated-callbacks", `import trigger minute from triggers;
+let base = 2;
+fn twice(n: int) -> int { n * 2 }
+#[trigger in minute(base * 20 + twice(5))]
+event fn every(_elapsed: int) {
+    println("every() was called");
+}
+#[allow_unused]
+fn spare(n: int) -> int { n + 0 }
+fn main() {
+    println("registered", base + 1);
+}
+`},
 		{"small:multiplication-by-zero-and-one", `fn scale(a: int, b: int) -> int { a * b }
 fn main() {
     for i in 0..3 { println(scale(3, i), scale(i, 3), i * 0, 5 * i); }
@@ -288,9 +325,33 @@ func c20Input(i int) (name, text string, ok bool) {
 }
 
 type c20Base struct {
-	tree ast.AnalyzedProgram
-	obs  Obs
-	ok   bool
+	tree  ast.AnalyzedProgram
+	obs   Obs
+	ok    bool
+	decls string
+}
+
+// c20Decls renders what a program declares to the host besides its behaviour when run: the
+// annotations of its functions (kind and trigger of each item, per function, sorted).
+func c20Decls(p ast.AnalyzedProgram) string {
+	var out []string
+	for _, f := range p.Functions {
+		if f.Annotation == nil {
+			continue
+		}
+		var items []string
+		for _, it := range f.Annotation.Items {
+			switch a := it.(type) {
+			case ast.AnalyzedAnnotationItemTrigger:
+				items = append(items, fmt.Sprintf("trigger %v %s/%d", a.TriggerConnective, a.TriggerSource.Ident(), len(a.TriggerArgs.List)))
+			default:
+				items = append(items, fmt.Sprintf("%T %s", it, it.String()))
+			}
+		}
+		out = append(out, f.Ident.Ident()+": "+strings.Join(items, ", "))
+	}
+	sort.Strings(out)
+	return strings.Join(out, "; ")
 }
 
 func c20Prepare(text string) c20Base {
@@ -299,7 +360,7 @@ func c20Prepare(text string) c20Base {
 		return c20Base{}
 	}
 	o := RunVM(a, defaultOpts())
-	return c20Base{tree: a.Mods["main"], obs: o, ok: crashClass(o) == ""}
+	return c20Base{tree: a.Mods["main"], obs: o, ok: crashClass(o) == "", decls: c20Decls(a.Mods["main"])}
 }
 
 func c20Run(tier string, idx int, r *Result) {
@@ -389,6 +450,10 @@ func c20Run(tier string, idx int, r *Result) {
 				r.Fail("VARIANT:rejected by the analyzer:"+normMsg(msgs[0]), tags, cas, "variant:\n"+variant+"\n"+a.Obs.String())
 			}
 			return true
+		}
+		if d := c20Decls(a.Mods["main"]); d != base.decls && !reported["decls"] {
+			reported["decls"] = true
+			r.Fail("VARIANT:declares other annotations", tags, cas, fmt.Sprintf("variant:\n%s\noriginal declares: %s\nvariant declares:  %s", variant, base.decls, d))
 		}
 		o := RunVM(a, defaultOpts())
 		r.Trans(2)
